@@ -14,3 +14,15 @@ def arm_tt(ctx, lapack=True):
     if lapack:
         probe.install_lapack_observer()
     return tt
+
+
+def arm_light(ctx, lapack=True):
+    """only what the solver-level properties need from the TT layer: the class reference for the generic
+    argument/return contracts and the LAPACK boundary observer.  (The value contracts on every internal `+`, `@`,
+    norm ... are armed in the C01-C06 runs, including their `ambient` solver workloads.)"""
+    tt = importlib.import_module('scikit_tt.tensor_train')
+    contracts_tt.TT = tt.TT
+    contracts_tt.ttmod = tt
+    if lapack:
+        probe.install_lapack_observer()
+    return tt
